@@ -222,8 +222,13 @@ def run(case):
     evals += 1
     tag0 = {"cmd": cmd, "params": params, "dtype": dt, "inputs": [[str(x) for x in c] for c in cols]}
     if base[0] == "err":
-        # the base arrangement itself fails: every rearrangement must fail alike (nothing else to compare)
+        # the base arrangement itself fails: every rearrangement must fail alike (nothing else to compare) ...
         base_cells = None
+        from mpilot.exceptions import MPilotError
+        if (not isinstance(base[1], MPilotError) or type(base[1]).__name__ == "UnexpectedError") and not (cmd == "FuzzyXOr" and n == 1):  # (XOr of one input is undefined)
+            # ... but a failure that is not one of MPilot's own errors is no answer at all: the command returned no array for well-formed inputs
+            viols.append(V("C05:%s:no-result:%s" % (cmd, D.error_name(base[1])), "%s returned no array for %d well-formed input(s) of %d cells: %s" % (
+                cmd, n, size, str(base[1])[:160].replace("\n", " ")), **tag0))
     else:
         bshape, base_cells, _ = D.result_cells(base[1]) if isinstance(base[1], numpy.ndarray) else ((), None, False)
         if base_cells is None or len(base_cells) != size:
